@@ -190,6 +190,18 @@ def run(R):
                 flow = None
                 for r_ in recs:
                     flow = flow or mcfg.find_path([e.dst for e in mcfg.out_edges(r_.id, N)], comp_nodes, N)
+                if comp_nodes:
+                    def recorded(nd, errs=errs):
+                        if nd.kind != "test":
+                            return None
+                        k_, s_, pos_ = q.atom_test(nd.ast)
+                        if k_ == "isnone" and s_ in errs:
+                            return "F" if pos_ else "T"
+                        return None
+                    pg = kit.path_avoiding_guard(mcfg, comp_nodes, recorded, N)
+                    R.check(pg is None, "C06.HOOK-ALL", m.qualname + ":error-only", R.site(m, h),
+                            "the task is failed only when a hook did raise", "the task can be completed with the error accumulator while it is still None "
+                            "(no hook raised): a task whose contexts switched cleanly would be ended", mcfg.fmt_path(pg) if pg else None)
                 R.check(reach is not None and flow is not None, "C06.HOOK-ALL", m.qualname + ":error-flow", R.site(m, h),
                         "a %s() that raises is recorded and the task is failed with that exception" % hook,
                         "an exception raised by ctx.%s() is never recorded / never reaches the task's error: it is silently swallowed (a NonAsyncContext would no longer "
